@@ -147,6 +147,7 @@ def _worker(job):
         t1 = time.time()
         fn(B, G, **kwargs)
         t_exec = time.time() - t1
+        prob.twin_names = set(G.twins)
         results = prob.solve()
         # shim self-test data: library-side values at a random rational parameter point
         rnd = random.Random(seed * 31 + 5)
@@ -304,7 +305,7 @@ def run_check(pid, tier, jobs, meta, seed=0, procs=None, job_timeout=None, extra
     inconclusive = []
     outs = run_jobs(ctx, jobs, procs, job_timeout)
     # ---- triage --------------------------------------------------------------------------------
-    n_oblig = n_unsat = n_sat = n_unknown = n_twins = n_twins_ok = 0
+    n_oblig = n_unsat = n_sat = n_unknown = n_twins = n_twins_ok = n_skipped = 0
     solver_s = nf_s = 0.0
     candidates = []  # (job, out, name, kind, cex theta)
     samples = []
@@ -341,6 +342,8 @@ def run_check(pid, tier, jobs, meta, seed=0, procs=None, job_timeout=None, extra
             elif r["verdict"] == "sat":
                 n_sat += 1
                 candidates.append((j, o, r["name"], "goal", r["cex"]))
+            elif r["verdict"] == "skipped":
+                n_skipped += 1
             else:
                 n_unknown += 1
                 inconclusive.append("job %s goal %s: %s" % (j["name"], r["name"], r.get("detail", "unknown")))
@@ -451,7 +454,7 @@ def run_check(pid, tier, jobs, meta, seed=0, procs=None, job_timeout=None, extra
         distinct_nontrivial=n_oblig + fact_count + ex.get("obligations", 0),
         rule="one obligation = one solver query (identity / sign goal over all real parameter values, residual after normal-form reduction) or one executed structural fact; all are distinct (distinct goal names per job)",
         samples=samples + ex.get("samples", []),
-        solver_queries=dict(total=n_oblig + n_twins, unsat=n_unsat, sat=n_sat + n_twins_ok, unknown=n_unknown),
+        solver_queries=dict(total=n_oblig + n_twins, unsat=n_unsat, sat=n_sat + n_twins_ok, unknown=n_unknown, skipped_after_counterexamples=n_skipped),
         facts=dict(total=fact_count, ok=fact_ok),
         twins=dict(total=n_twins, sat=n_twins_ok, replayed_as_numeric_difference=twins_replayed),
         shim_selftest=dict(jobs_cross_checked=st_ok, values_compared=st_points),
